@@ -26,17 +26,25 @@
        C10_parse_back_no_exts):                           C10_parse_back, C10_parse_back_ether_type
      - the values behind the windows:                     C10_layers_as_configured,
        C10_parse_back_ipv4_header_partial, C10_parse_back_tcp_partial (C08 decoders)
-   Still checked per case only (crate parser = wire reference decoder; independent RFC reference
-   encoder and RFC 1071 verification in tools/props/c10.py): what the decoder answers for the
-   payloads excluded by `payload_admitted`, and the typed ICMP kinds other than Unknown / Echo. *)
+   Round 3 (this file, last two sections):
+     - the transport step of the model covers EVERY Icmpv4Type / Icmpv6Type variant (composition of
+       the C08 serialisers Roundtrip/Icmp4.v, Icmp6.v with the C09 checksum models); all theorems
+       above therefore quantify over every typed kind (20-byte timestamp headers included), and
+       C10_icmp4_value_back / C10_icmp6_value_back add: the crate's decoders (C08 models) and the
+       RFC-table decoders of C17 return the configured type, all its fields and the payload;
+     - the cases excluded by `payload_admitted` are theorems now: C10_parse_back_upto_ip (no
+       hypothesis), C10_parse_back_upto_transport (chain_ok), C10_timestamp_wrong_size_rejected
+       (the decoder's exact answer), and C10_parse_back_refuted_* show that the full parse-back
+       equation FAILS for every excluded number / timestamp size (the exclusion is necessary). *)
 From EP Require Import Base.Bytes Checksum.Spec Checksum.Model.
 From EP Require Roundtrip.Common Roundtrip.Tcp Roundtrip.Ipv4 ExtChain.Spec ExtChain.Model BitFields.Model.
 From EP Require Import Parse.Types Parse.View Parse.WireSpec.
 From EP Require Import Builder.Model Builder.Spec Builder.Proofs Builder.ProofsCk.
 From EP Require Checksum.ProtoTypes Checksum.ProtoSpec.
 From EP Require Import Builder.SpecX Builder.ProofsTr Builder.ProofsNx Builder.ProofsWire Builder.ProofsPb
-  Builder.ProofsVal.
+  Builder.ProofsVal Builder.ProofsEx.
 From EP Require ExtChain.View.
+From EP Require CtlMsg.Spec CtlMsg.Model Roundtrip.Icmp4 Roundtrip.Icmp6.
 Local Open Scope N_scope.
 
 (* ---- outcome: encodable configurations give exactly size() bytes, the others the documented error *)
@@ -308,6 +316,140 @@ Theorem C10_layers_as_configured : forall e c p bs, cfg_wf c = true -> build e c
 Proof. exact layers_as_configured. Qed.
 Print Assumptions C10_layers_as_configured.
 
+(* ==== every typed ICMP kind: the decoders return the configured message ====
+   seg = the bytes from the transport header to the end of the packet.  For EVERY Icmpv4Type
+   variant (Unknown, EchoReply, DestinationUnreachable with each of the 16 headers incl. the
+   next-hop MTU, Redirect x 4 codes, EchoRequest, TimeExceeded x 2, ParameterProblem x 3,
+   TimestampRequest, TimestampReply) over IPv4 and over IPv6, any link / VLAN / options /
+   extension headers in front:
+     Icmpv4Header::read      (C08 model)        = the configured type + stored checksum, rest = payload
+     Icmpv4Header::from_slice (C08 model)       = the same
+     CtlMsg.Spec.icmp4        (RFC 792 tables)  = (configured type, header_len, payload)
+     Icmpv4Slice view         (C17 model)       = the same
+   wf_icmp4_type (C08): field ranges of the Rust types, and a raw Unknown{type, code} does not
+   name a typed kind (icmpv4_raw(8, 0, ..) is read as EchoRequest; Example C10_ex_raw_named).
+   The ONE payload side condition: `header_len = 8 \/ p = []` -- TimestampRequest / TimestampReply
+   are 20-byte messages, the slice decoders insist on exactly 20 bytes (read does not:
+   the first conjunct has no side condition). *)
+Theorem C10_icmp4_value_back : forall e c p bs t, cfg_wf c = true -> build e c p = BOk bs ->
+  c_transport c = TrIcmpv4 t -> (forall a, c_net c <> NtArp a) ->
+  Icmp4.wf_icmp4_type t = true ->
+  exists ck, ck < 65536 /\
+    let seg := drop (off_transport c) bs in
+    let h := {| Icmp4.icmp4_type := t; Icmp4.icmp4_checksum := ck |} in
+    Icmp4.icmp4_read seg = Roundtrip.Common.Ok (h, p) /\
+    (Icmp4.icmp4_type_header_len t = 8 \/ p = [] ->
+     Icmp4.icmp4_from_slice seg = Roundtrip.Common.Ok (h, p) /\
+     CtlMsg.Spec.icmp4 seg = CtlMsg.Spec.Ok (t, Icmp4.icmp4_type_header_len t, p) /\
+     CtlMsg.Model.Icmpv4Slice.view seg = CtlMsg.Spec.Ok (t, Icmp4.icmp4_type_header_len t, p)).
+Proof. exact icmp4_value_back. Qed.
+Print Assumptions C10_icmp4_value_back.
+
+(* the other side of the side condition: a typed timestamp message with a non-empty payload
+   is 20 + |p| bytes of type 13 / 14 code 0, which the typed view refuses *)
+Theorem C10_icmp4_timestamp_payload_rejected : forall e c p bs t, cfg_wf c = true -> build e c p = BOk bs ->
+  c_transport c = TrIcmpv4 t -> (forall a, c_net c <> NtArp a) ->
+  Icmp4.icmp4_type_header_len t = 20 -> p <> [] ->
+  let seg := drop (off_transport c) bs in
+  len seg = 20 + len p /\
+  CtlMsg.Model.Icmpv4Slice.view seg =
+    CtlMsg.Spec.ErrLen (CtlMsg.Spec.mkLenError 20 (20 + len p) CtlMsg.Spec.LsSlice
+      (if fst (icmp4_tc t) =? 13 then CtlMsg.Spec.LIcmpv4Timestamp else CtlMsg.Spec.LIcmpv4TimestampReply) 0) /\
+  Icmp4.icmp4_from_slice seg = Roundtrip.Common.Err Roundtrip.Common.ELen.
+Proof. exact icmp4_timestamp_payload_rejected. Qed.
+Print Assumptions C10_icmp4_timestamp_payload_rejected.
+
+(* EVERY Icmpv6Type variant (Unknown, DestinationUnreachable x 7, PacketTooBig, TimeExceeded x 2,
+   ParameterProblem x 11 codes + pointer, EchoRequest / EchoReply, RouterSolicitation,
+   RouterAdvertisement with M / O flags, NeighborSolicitation, NeighborAdvertisement with R / S / O,
+   Redirect), every payload: no side condition *)
+Theorem C10_icmp6_value_back : forall e c p bs t, cfg_wf c = true -> build e c p = BOk bs ->
+  c_transport c = TrIcmpv6 t -> (forall a, c_net c <> NtArp a) ->
+  Icmp6.wf_icmp6_type t = true ->
+  exists ck, ck < 65536 /\
+    let seg := drop (off_transport c) bs in
+    let h := {| Icmp6.icmp6_type := t; Icmp6.icmp6_checksum := ck |} in
+    Icmp6.icmp6_read seg = Roundtrip.Common.Ok (h, p) /\
+    Icmp6.icmp6_from_slice seg = Roundtrip.Common.Ok (h, p) /\
+    CtlMsg.Spec.icmp6 seg = CtlMsg.Spec.Ok (t, p) /\
+    CtlMsg.Model.Icmpv6Slice.view seg = CtlMsg.Spec.Ok (t, p).
+Proof. exact icmp6_value_back. Qed.
+Print Assumptions C10_icmp6_value_back.
+
+(* ==== what is guaranteed where C10_parse_back does not apply ====
+   (size, no panic, length fields, IPv4 checksum, transport checksums, next-protocol bytes and
+   C10_layers_as_configured have no payload hypothesis: they hold there anyway)
+
+   For EVERY well-formed configuration that builds -- any ip number in write(ip_number, ..), any
+   ICMP payload size: the link layer, every VLAN tag and the fixed IP header are accepted exactly
+   as configured (link_view = the link / VLAN windows of expected_x), and the decoder continues
+   with its extension-header / transport stage over exactly the rest of the packet. *)
+Theorem C10_parse_back_upto_ip : forall e c p bs, cfg_wf c = true -> build e c p = BOk bs ->
+  match c_net c with
+  | NtIpv4 h _ =>
+      wire_entry c bs = wire_ipv4_tail bs (link_view c (len bs)) (off_net c) (Ipv4.ip4_header_len h) (len bs)
+  | NtIpv6 _ _ =>
+      wire_entry c bs = wire_ipv6_tail bs (link_view c (len bs)) LsIpv6HeaderPayloadLen LsIpv6HeaderPayloadLen
+                                       (off_net c) (len bs)
+  | NtArp _ => wire_entry c bs = VOk (expected_x c (len p))
+  end.
+Proof. exact parse_back_upto_ip. Qed.
+Print Assumptions C10_parse_back_upto_ip.
+
+(* chain_ok: the announced number is not read as a further extension header (always true for
+   udp / tcp / icmp; for write(n, ..): n <> 51 over IPv4, n not in {0, 43, 44, 51, 60} over IPv6).
+   Then link, VLAN, IP header AND every configured extension header parse back as configured
+   (upto_net = expected_x without transport layer: the IP payload window is
+   (off_transport, header_len + |p|) = the emitted transport bytes), and the decoder's answer is
+   that of its transport stage on those bytes.  This covers write(1 | 6 | 17 | 58, ..) -- the
+   payload is then read as an ICMPv4 / TCP / UDP / ICMPv6 message -- and ICMPv4 timestamps of
+   any size. *)
+Theorem C10_parse_back_upto_transport : forall e c p bs,
+  cfg_wf c = true -> build e c p = BOk bs -> chain_ok c = true ->
+  match c_net c with
+  | NtArp _ => True
+  | _ =>
+    off_transport c + tr_header_len (c_transport c) + len p = len bs /\
+    wire_entry c bs =
+      wire_transport bs (upto_net c (len p)) (tr_ip_number (c_transport c)) (is_fragmented_x c) (ip_len_src c)
+                     (off_transport c) (len bs)
+  end.
+Proof. exact parse_back_upto_transport. Qed.
+Print Assumptions C10_parse_back_upto_transport.
+
+(* the decoder's answer for an ICMPv4 timestamp / timestamp reply message (typed variant, or raw
+   type 13 / 14 code 0) whose size is not 20 bytes: a Len error `required 20`, with the actual
+   message size, the IP length field as source, the timestamp layer and the transport offset *)
+Theorem C10_timestamp_wrong_size_rejected : forall e c p bs t, cfg_wf c = true -> build e c p = BOk bs ->
+  c_transport c = TrIcmpv4 t -> (forall a, c_net c <> NtArp a) ->
+  is_fragmented_x c = false -> icmp4_admits t (len p) = false ->
+  wire_entry c bs =
+    VErr (ELen (mkLenError 20 (Icmp4.icmp4_type_header_len t + len p) (ip_len_src c) (ts_layer t)
+                           (off_transport c))).
+Proof. exact timestamp_wrong_size_rejected. Qed.
+Print Assumptions C10_timestamp_wrong_size_rejected.
+
+(* the exclusions of payload_admitted are necessary: for every excluded ip number (IPv4: 1, 6,
+   17, 58, 51; IPv6: additionally 0, 43, 44, 60) and for timestamp messages of the wrong size there
+   is a well-formed configuration that builds and whose packet the decoder does NOT read back as
+   the configured view.  `refutes c p` = cfg_wf c /\ payload_admitted c |p| = false /\
+   build LE c p = BOk bs /\ wire_entry c bs <> VOk (expected_x c |p|). *)
+Theorem C10_parse_back_refuted_raw4 :
+  Forall (fun n => refutes (wit_cfg4 (TrNone n)) wit_payload) [1; 6; 17; 58; 51].
+Proof. exact parse_back_refuted_raw4. Qed.
+Print Assumptions C10_parse_back_refuted_raw4.
+Theorem C10_parse_back_refuted_raw6 :
+  Forall (fun n => refutes (wit_cfg6 (TrNone n)) wit_payload) [1; 6; 17; 58; 51; 0; 43; 44; 60].
+Proof. exact parse_back_refuted_raw6. Qed.
+Print Assumptions C10_parse_back_refuted_raw6.
+Theorem C10_parse_back_refuted_timestamp :
+  refutes (wit_cfg4 (TrIcmpv4 (CtlMsg.Spec.V4TimestampRequest wit_ts))) wit_payload /\
+  refutes (wit_cfg4 (TrIcmpv4 (CtlMsg.Spec.V4TimestampReply wit_ts))) [9] /\
+  refutes (wit_cfg4 (TrIcmpv4 (CtlMsg.Spec.V4Unknown 13 0 0 1 0 2))) wit_payload /\
+  refutes (wit_cfg6 (TrIcmpv4 (CtlMsg.Spec.V4Unknown 14 0 0 1 0 2))) (repeat 7 13).
+Proof. exact parse_back_refuted_timestamp. Qed.
+Print Assumptions C10_parse_back_refuted_timestamp.
+
 (* statement pinning *)
 Check (C10_size : forall e c p bs, cfg_wf c = true -> build e c p = BOk bs -> len bs = final_size c (len p)).
 Check (C10_never_panics : forall e c p s, cfg_wf c = true -> build e c p <> BPanic s).
@@ -360,7 +502,7 @@ Example C10_ex_verifies :
 Proof. split; vm_compute; reflexivity. Qed.
 (* error outcomes *)
 Definition ex_cfg_icmp6 : cfg :=
-  mkCfg (c_link ex_cfg) (VlSingle (BitFields.Model.mkVlan 0 false 5 0)) (c_net ex_cfg) (TrIcmpv6 (IcEchoRequest 1 2)).
+  mkCfg (c_link ex_cfg) (VlSingle (BitFields.Model.mkVlan 0 false 5 0)) (c_net ex_cfg) (TrIcmpv6 (CtlMsg.Spec.V6EchoRequest 1 2)).
 Example C10_ex_icmpv6_in_ipv4 : cfg_wf ex_cfg_icmp6 = true /\
   build LE ex_cfg_icmp6 [1] = BErr EIcmpv6InIpv4 /\ spec_outcome ex_cfg_icmp6 1 = OErr EIcmpv6InIpv4 /\
   len (snd (build_run LE ex_cfg_icmp6 [1])) = 38.
@@ -415,7 +557,7 @@ Qed.
    RFC 8200 pseudo header (next header 58, upper-layer length = whole ICMPv6 message) *)
 Definition ex_cfg_icmp6_sll : cfg :=
   mkCfg (LkLinuxSll 4 6 [1; 2; 3; 4; 5; 6; 0; 0]) VlNone (NtIpv6 ex_ip6 ExtChain.Model.exts6_default)
-        (TrIcmpv6 (IcEchoRequest 4660 1)).
+        (TrIcmpv6 (CtlMsg.Spec.V6EchoRequest 4660 1)).
 Example C10_ex_icmp6 :
   cfg_wf ex_cfg_icmp6_sll = true /\ payload_admitted ex_cfg_icmp6_sll 3 = true /\
   exists bs, build LE ex_cfg_icmp6_sll [104; 105; 33] = BOk bs /\
@@ -429,7 +571,7 @@ Proof.
 Qed.
 
 (* no link layer: the same packet through wire_from_ip and through wire_ether_type *)
-Definition ex_cfg_nolink : cfg := mkCfg LkNone VlNone (c_net ex_cfg) (TrIcmpv4 (IcUnknown 13 0 [0; 1; 0; 2])).
+Definition ex_cfg_nolink : cfg := mkCfg LkNone VlNone (c_net ex_cfg) (TrIcmpv4 (CtlMsg.Spec.V4Unknown 13 0 0 1 0 2)).
 Example C10_ex_nolink :
   cfg_wf ex_cfg_nolink = true /\ payload_admitted ex_cfg_nolink 12 = true /\
   payload_admitted ex_cfg_nolink 11 = false /\
@@ -442,4 +584,98 @@ Example C10_ex_nolink :
 Proof.
   split; [vm_compute; reflexivity|]. split; [vm_compute; reflexivity|]. split; [vm_compute; reflexivity|].
   eexists. split; [vm_compute; reflexivity|]. vm_compute. repeat split; reflexivity.
+Qed.
+
+(* ---- typed ICMP kinds: non-vacuity with boundary field values ----
+   ICMPv4 DestinationUnreachable / FragmentationNeeded (next-hop MTU 0xffff) over IPv6 behind a
+   hop-by-hop + fragment header chain and two VLAN tags; TimestampReply (20 byte header, all
+   fields at their maximum) with the empty payload; ICMPv6 RouterAdvertisement (M set, O clear)
+   and PacketTooBig (MTU 2^32-1) *)
+Definition ex_cfg_du : cfg :=
+  mkCfg (c_link ex_cfg_tcp6) (c_vlan ex_cfg_tcp6) (NtIpv6 ex_ip6 ex_exts6)
+        (TrIcmpv4 (CtlMsg.Spec.V4DestinationUnreachable (CtlMsg.Spec.DuFragmentationNeeded 65535))).
+Definition ex_ts : CtlMsg.Spec.TimestampMessage := CtlMsg.Spec.mkTimestamp 65535 65535 4294967295 4294967295 4294967295.
+Definition ex_cfg_ts : cfg := mkCfg LkNone VlNone (c_net ex_cfg) (TrIcmpv4 (CtlMsg.Spec.V4TimestampReply ex_ts)).
+Definition ex_cfg_ra : cfg :=
+  mkCfg (c_link ex_cfg_icmp6_sll) VlNone (c_net ex_cfg_icmp6_sll)
+        (TrIcmpv6 (CtlMsg.Spec.V6RouterAdvertisement 255 true false 65535)).
+Definition ex_cfg_ptb : cfg :=
+  mkCfg LkNone VlNone (c_net ex_cfg_icmp6_sll) (TrIcmpv6 (CtlMsg.Spec.V6PacketTooBig 4294967295)).
+Example C10_ex_typed_icmp4 :
+  cfg_wf ex_cfg_du = true /\ payload_admitted ex_cfg_du 3 = true /\
+  Icmp4.wf_icmp4_type (CtlMsg.Spec.V4DestinationUnreachable (CtlMsg.Spec.DuFragmentationNeeded 65535)) = true /\
+  exists bs, build LE ex_cfg_du [1; 2; 3] = BOk bs /\ len bs = final_size ex_cfg_du 3 /\
+    drop (off_transport ex_cfg_du) bs = [3; 4; 248; 249; 0; 0; 255; 255; 1; 2; 3] /\
+    verifies (drop (off_transport ex_cfg_du) bs) /\
+    wire_ethernet bs = VOk (expected_x ex_cfg_du 3) /\
+    Icmp4.icmp4_from_slice (drop (off_transport ex_cfg_du) bs)
+    = Roundtrip.Common.Ok ({| Icmp4.icmp4_type := CtlMsg.Spec.V4DestinationUnreachable (CtlMsg.Spec.DuFragmentationNeeded 65535);
+                              Icmp4.icmp4_checksum := 63737 |}, [1; 2; 3]).
+Proof.
+  split; [vm_compute; reflexivity|]. split; [vm_compute; reflexivity|]. split; [vm_compute; reflexivity|].
+  eexists. split; [vm_compute; reflexivity|]. vm_compute. repeat split; reflexivity.
+Qed.
+Example C10_ex_typed_timestamp :
+  cfg_wf ex_cfg_ts = true /\ tr_header_len (c_transport ex_cfg_ts) = 20 /\
+  payload_admitted ex_cfg_ts 0 = true /\ payload_admitted ex_cfg_ts 12 = false /\
+  Icmp4.wf_icmp4_type (CtlMsg.Spec.V4TimestampReply ex_ts) = true /\
+  exists bs, build LE ex_cfg_ts [] = BOk bs /\ len bs = 40 /\ W bs 2 = 40 /\
+    wire_from_ip bs = VOk (expected_x ex_cfg_ts 0) /\
+    v_transport (expected_x ex_cfg_ts 0) = Some (VIcmpv4 (20, 20)) /\
+    CtlMsg.Spec.icmp4 (drop 20 bs) = CtlMsg.Spec.Ok (CtlMsg.Spec.V4TimestampReply ex_ts, 20, []) /\
+    verifies (drop 20 bs).
+Proof.
+  split; [vm_compute; reflexivity|]. split; [reflexivity|]. split; [vm_compute; reflexivity|].
+  split; [vm_compute; reflexivity|]. split; [vm_compute; reflexivity|].
+  eexists. split; [vm_compute; reflexivity|]. vm_compute. repeat split; reflexivity.
+Qed.
+(* the excluded side: the same message with one payload byte is refused with `required 20` *)
+Example C10_ex_timestamp_payload :
+  icmp4_admits (CtlMsg.Spec.V4TimestampReply ex_ts) 1 = false /\ is_fragmented_x ex_cfg_ts = false /\
+  chain_ok ex_cfg_ts = true /\
+  exists bs, build LE ex_cfg_ts [7] = BOk bs /\ len bs = final_size ex_cfg_ts 1 /\
+    wire_from_ip bs = VErr (ELen (mkLenError 20 21 LsIpv4HeaderTotalLen LyIcmpv4TimestampReply 20)).
+Proof.
+  split; [vm_compute; reflexivity|]. split; [vm_compute; reflexivity|]. split; [vm_compute; reflexivity|].
+  eexists. split; [vm_compute; reflexivity|]. split; vm_compute; reflexivity.
+Qed.
+Example C10_ex_typed_icmp6 :
+  cfg_wf ex_cfg_ra = true /\ cfg_wf ex_cfg_ptb = true /\
+  Icmp6.wf_icmp6_type (CtlMsg.Spec.V6RouterAdvertisement 255 true false 65535) = true /\
+  (exists bs, build LE ex_cfg_ra [3; 4; 0; 0; 0; 0; 0; 0] = BOk bs /\
+     take 8 (drop 56 bs) = [134; 0; B bs 58; B bs 59; 255; 128; 255; 255] /\
+     wire_linux_sll bs = VOk (expected_x ex_cfg_ra 8) /\
+     CtlMsg.Spec.icmp6 (drop 56 bs)
+     = CtlMsg.Spec.Ok (CtlMsg.Spec.V6RouterAdvertisement 255 true false 65535, [3; 4; 0; 0; 0; 0; 0; 0]) /\
+     verifies (pseudo6 (BitFields.Model.v6_source ex_ip6) (BitFields.Model.v6_destination ex_ip6) 16 58 ++ drop 56 bs)) /\
+  (exists bs, build BE ex_cfg_ptb [] = BOk bs /\
+     take 2 (drop 40 bs) = [2; 0] /\ drop 44 bs = [255; 255; 255; 255] /\
+     CtlMsg.Spec.icmp6 (drop 40 bs) = CtlMsg.Spec.Ok (CtlMsg.Spec.V6PacketTooBig 4294967295, [])).
+Proof.
+  split; [vm_compute; reflexivity|]. split; [vm_compute; reflexivity|]. split; [vm_compute; reflexivity|].
+  split; eexists; (split; [vm_compute; reflexivity|]); vm_compute; repeat split; reflexivity.
+Qed.
+(* a raw Unknown that names a typed kind is read as that kind: not wf_icmp4_type, the value
+   theorem does not apply, the window theorem C10_parse_back does *)
+Example C10_ex_raw_named :
+  let c := mkCfg LkNone VlNone (c_net ex_cfg) (TrIcmpv4 (CtlMsg.Spec.V4Unknown 8 0 0 1 0 2)) in
+  cfg_wf c = true /\ Icmp4.wf_icmp4_type (CtlMsg.Spec.V4Unknown 8 0 0 1 0 2) = false /\
+  payload_admitted c 1 = true /\
+  exists bs, build LE c [9] = BOk bs /\ wire_from_ip bs = VOk (expected_x c 1) /\
+    CtlMsg.Spec.icmp4 (drop 20 bs) = CtlMsg.Spec.Ok (CtlMsg.Spec.V4EchoRequest 1 2, 8, [9]).
+Proof.
+  cbv zeta. split; [vm_compute; reflexivity|]. split; [vm_compute; reflexivity|]. split; [vm_compute; reflexivity|].
+  eexists. split; [vm_compute; reflexivity|]. split; vm_compute; reflexivity.
+Qed.
+(* write(17, ..): chain_ok holds, the decoder reaches the transport position with the configured
+   layers and reads the raw payload as a UDP header *)
+Example C10_ex_raw_udp :
+  let c := wit_cfg4 (TrNone 17) in
+  cfg_wf c = true /\ chain_ok c = true /\ payload_admitted c 3 = false /\
+  exists bs, build LE c wit_payload = BOk bs /\ drop (off_transport c) bs = wit_payload /\
+    wire_ethernet bs = wire_transport bs (upto_net c 3) 17 false LsIpv4HeaderTotalLen 38 41 /\
+    wire_ethernet bs = VErr (ELen (mkLenError 8 3 LsIpv4HeaderTotalLen LyUdpHeader 38)).
+Proof.
+  cbv zeta. split; [vm_compute; reflexivity|]. split; [vm_compute; reflexivity|]. split; [vm_compute; reflexivity|].
+  eexists. split; [vm_compute; reflexivity|]. repeat split; vm_compute; reflexivity.
 Qed.
